@@ -1,6 +1,7 @@
 //! Everything that instantiates the libraries' generic entry points lives in this crate so that
 //! editing the checks does not recompile ~10,000 monomorphisations.
 pub mod alloc;
+pub mod login;
 pub mod model;
 pub mod pipe;
 pub mod rng;
